@@ -64,7 +64,7 @@ def multi_lines(run, pool, n, k=3):
     return out
 
 
-GEN_FILES = ["scen_F1.ndjson", "scen_F2.ndjson", "scen_F3.ndjson", "scen_F4.ndjson", "scen_F5.ndjson", "scen_F6.ndjson", "scen_Probe.ndjson"]
+GEN_FILES = ["scen_F1.ndjson", "scen_F2.ndjson", "scen_F3.ndjson", "scen_F4.ndjson", "scen_F5.ndjson", "scen_F6.ndjson", "scen_Probe.ndjson", "scen_Wait.ndjson"]
 CONN_ASSUME = ["scripted handlers (finite reply scripts shipped in the call parameters)",
                "unix stream sockets; service reads are unlogged and inferred by TLC",
                "trace recorder ordering discipline (harness/tr)"]
@@ -77,15 +77,17 @@ def sample(run, lines, n):
 def check_C01(run):
     thorough = run.tier == "thorough"
     # 1. the design, exhaustively: every scenario x every schedule
-    run.model_check("ConnMC", conn_mc_cfg("F1", maxscript=2 if thorough else 1, rich=thorough), "Conn F1: every single-call scenario x every schedule", timeout=1500)
-    run.model_check("ConnMC", conn_mc_cfg("F2"), "Conn F2: two-call streams x all compositions into writes", timeout=1500)
+    jobs = [("ConnMC", conn_mc_cfg("F1", maxscript=2 if thorough else 1, rich=thorough), "Conn F1: every single-call scenario x every schedule"),
+            ("ConnMC", conn_mc_cfg("F2"), "Conn F2: two-call streams x all compositions into writes"),
+            ("ConnMC", conn_mc_cfg("Multi", conns="{c1, c2}", extra_inv="Independence", liveness=False),
+             "Conn Multi: two connections (one of them may wait for the other), all interleavings (Independence)")]
     if thorough:
-        run.model_check("ConnMC", conn_mc_cfg("F3"), "Conn F3: three-call streams", timeout=1500)
-    run.model_check("ConnMC", conn_mc_cfg("Multi", conns="{c1, c2}", extra_inv="Independence", liveness=False),
-                    "Conn Multi: two connections, all interleavings (Independence)", timeout=1500)
+        jobs.append(("ConnMC", conn_mc_cfg("F3"), "Conn F3: three-call streams"))
+    run.model_check_many(jobs, timeout=2400)
     # 2. scenarios out of TLC
-    g = run.generate("ConnGen", conn_gen_cfg(2 if thorough else 1, thorough), ["scen_F1.ndjson", "scen_F2.ndjson", "scen_F3.ndjson"])
+    g = run.generate("ConnGen", conn_gen_cfg(2 if thorough else 1, thorough), GEN_FILES)
     f1, f2, f3 = g["scen_F1.ndjson"], g["scen_F2.ndjson"], g["scen_F3.ndjson"]
+    waitscen = g["scen_Wait.ndjson"][0]
     run.extra["scenario_space"] = {"F1": len(f1), "F2": len(f2), "F3": len(f3)}
     if not thorough:
         f1 = run.rng.sample(f1, min(len(f1), 700))
@@ -100,6 +102,10 @@ def check_C01(run):
     ml = multi_lines(run, pool, 1500 if thorough else 120)
     replay_validate(run, ml, ["conn", "-multi"], "ConnTrace", conn_trace_cfg('{"c1", "c2", "c3"}'),
                     "C01 three concurrent connections, each its own scenario", nontrivial=nt)
+    # a connection whose handler waits for the others: their calls must be served meanwhile (no cross-connection coupling)
+    wl = ['{"c1":%s,"c2":%s,"c3":%s}' % (waitscen, pool[run.rng.randrange(len(pool))], pool[run.rng.randrange(len(pool))]) for _ in range(200 if thorough else 40)]
+    replay_validate(run, wl, ["conn", "-multi"], "ConnTrace", conn_trace_cfg('{"c1", "c2", "c3"}'),
+                    "C01 a handler that waits for the other connections", nontrivial=nt, shards=8)
     # many connections at once (ungated): every connection's events must still be explained independently
     k = 5
     ml = multi_lines(run, pool, 300, k=k) if thorough else []
